@@ -480,7 +480,7 @@ def main(ck):
         if rows[0]["rand_end"] != c["rows_fresh"][0]["rand_end"] or rows[1]["rand_end"] != rows[0]["rand_end"]:
             add_hit("%s: GetFaultRandomCount() at the end differs between runs of the same seed: %s %s %s" % (
                 c["name"], rows[0]["rand_end"], rows[1]["rand_end"], c["rows_fresh"][0]["rand_end"]),
-                "restore-absolute-count", dict(harness="h_c17", commands=[cmd]))
+                "restore-absolute-count", dict(harness="h_c17", kind="(n) final GetFaultRandomCount() of the two runs in one process and of the fresh process", commands=[cmd, cmdline(exe, c["base"])]))
         need_draws[c["cfg"]["seed"]] = max(need_draws.get(c["cfg"]["seed"], 0), rows[0]["rand_end"] + 8)
         c["tokens"] = t0
 
@@ -701,6 +701,11 @@ def main(ck):
             client_distinct.add(" ".join(canon_segment(t0, 0)))
     evaluations += client_runs
 
+    # the most telling failing input first: a restored run that diverges, then reruns, then the rest
+    def rank(h):
+        k = (h.get("replay") or {}).get("kind", "")
+        return 0 if k.startswith("(c)") else 1 if k.startswith(("(a)", "(b)")) else 2
+    hits.sort(key=rank)
     ck.cov["evaluations"] = evaluations
     ck.cov["traces_validated_against_impl"] = validated
     ck.cov["model_cases"] = len(terms)
@@ -753,6 +758,10 @@ def replay(ck, path):
         elif rp.get("kind", "").startswith("(b)"):
             a, bb = outs[0][0]["trace"].split(), outs[1][0]["trace"].split()
             bad = 1 if first_diff(canon_segment(a, 0), canon_segment(bb, 0)) >= 0 else 0
+        elif rp.get("kind", "").startswith("(n)"):
+            ends = [r["rand_end"] for r in outs[0]] + [r["rand_end"] for r in outs[1]]
+            print("final random counts: %s" % ends)
+            bad = 0 if len(set(ends)) == 1 else 1
         elif rp.get("kind", "").startswith("(c)"):
             ph = int(re.search(r"phase (\d+)", rp["kind"]).group(1))
             a, bb = outs[0][0]["trace"].split(), outs[1][0]["trace"].split()
